@@ -135,6 +135,27 @@ func verifyFunction(prog *Program, fn *ssa.Function, ctr *Contract, opts VerifyO
 	fr.entry = st.clone()
 	x.cover(st, x.prog.relName(fn)+"/cover.entry")
 	x.execBody(fr, st)
+	// panics the function lets escape (contract: maypanic): its `onpanic ensures` clauses and its
+	// frame must hold in the states in which they escape
+	if ctr != nil {
+		for _, es := range x.escaped {
+			if es == nil || es.dead {
+				continue
+			}
+			for _, c := range ctr.Clauses {
+				if c.Kind != "onpanic" {
+					continue
+				}
+				lbl := c.Label
+				if lbl == "" {
+					lbl = fmt.Sprintf("%d", clauseOrdinal(ctr, c))
+				}
+				g := x.evalSpecBool(fr, es, fr.entry, c.Expr, nil)
+				x.oblige(es, "ensures", x.siteName(fmt.Sprintf("%s/onpanic.%s", x.prog.relName(fn), lbl)), c.Tags, fn.Pos(), g)
+			}
+			x.checkFrame(fr, es, nil)
+		}
+	}
 	res.Covers = x.covers
 	res.Obls, res.Warnings, res.Unsupp = x.obls, x.warnings, x.unsupp
 	res.Trusted = sortedKeys(x.trusted)
@@ -599,6 +620,7 @@ func (c *scanCtx) scan(fn *ssa.Function, blocks []*ssa.BasicBlock) {
 			case *ssa.UnOp:
 				if _, ok := t.X.Type().Underlying().(*types.Chan); ok {
 					c.out.whole["chan"] = true
+					c.out.ghosts["recvData"] = true // maintained by the channel model on every receive
 				}
 			case *ssa.Call:
 				c.call(fn, &t.Call, false)
@@ -805,6 +827,10 @@ func (c *scanCtx) static(f *ssa.Function, args []ssa.Value, isGo bool) {
 		return
 	}
 	if effs, ok := modelEffects[f.String()]; ok {
+		if strings.HasSuffix(f.String(), "go-cache.cache).Get") {
+			// observation ghosts written by the go-cache model
+			c.out.ghosts["cacheFound"], c.out.ghosts["cacheFoundKey"], c.out.ghosts["cacheFoundIn"] = true, true, true
+		}
 		for _, e := range effs {
 			if e.arg < 0 || e.arg >= len(args) {
 				c.out.whole[e.region] = true
